@@ -700,6 +700,12 @@ func (c *moduleConfig) clone() *moduleConfig {
 	for key, value := range c.environKeys {
 		ret.environKeys[key] = value
 	}
+	// environ is appended to and overwritten in place by WithEnv, so it must not share
+	// a backing array with the receiver (or with other configs derived from it).
+	if c.environ != nil {
+		ret.environ = make([][]byte, len(c.environ))
+		copy(ret.environ, c.environ)
+	}
 	return &ret
 }
 
